@@ -12,6 +12,8 @@
 //!   admin hooks members total  mh=<addr>@<h>:<w|->,…  th=<h>:<w>,…  rawtotal=<n|->  rawmem=<addr>:<w|->,…
 //!   hs=<h>,… (recorded heights)  mlog=<addr>@<h>:<old|->,…  tlog=<h>:<old|->,…  (raw dumps of the two snapshot
 //!   changelogs: with them the observation determines the whole state — model resynchronisation)
+//!   rawkeys=T.<hex TOTAL_KEY>/M.<hex member_key(p0)>+<hex member_key(p1)>/P.<hex MEMBERS.key(p0)>+<..p1>/D.<dump>/C.<dump>
+//!   (the byte layout of the storage itself, compared with `encode` of the Lean model state: `render_raw_keys`)
 // SCENARIO cw4group crate::scen_cw4group::GroupScen::new()
 // SCENARIO cw4groupwide crate::scen_cw4group::GroupScen::new_wide()
 //
@@ -30,7 +32,7 @@ use cw4_group::contract::{execute, instantiate, query};
 use cw4_group::msg::{ExecuteMsg, InstantiateMsg, QueryMsg};
 use cw4_group::ContractError;
 use cw_controllers::{AdminResponse, HooksResponse};
-use std::collections::BTreeSet;
+use std::collections::{BTreeMap, BTreeSet};
 use std::marker::PhantomData;
 
 type Deps = OwnedDeps<MemStore, MockApi, MockQuerier>;
@@ -64,6 +66,67 @@ fn parse_member(e: &str) -> Member {
     let w: u64 = p.next().unwrap().parse().unwrap_or(0);
     let addr = addr_text(p.next().unwrap_or(""));
     Member { addr, weight: w }
+}
+
+/// The observation field `rawkeys` (cw4-group and cw4-stake; Lean side: `RawStore.renderRawKeys` applied to
+/// `encode` of the model state, `Base/RawStore.lean`, `Model/Cw4Raw.lean`).  It ties the model's byte layout of
+/// the storage to the real one:
+///   T.<hex>      `cw4::TOTAL_KEY.as_bytes()`
+///   M.<hex>+..   `cw4::member_key(addr)` of the probe addresses (what the cw4 spec publishes for raw queries)
+///   P.<hex>+..   `MEMBERS.key(&addr)` of the same addresses (what cw-storage-plus really uses)
+///   D.<dump>     every entry of the contract's storage outside the two snapshot changelogs, ascending by key:
+///                `<hex key>:<hex value>`, or `<hex key>:*` for a value whose JSON text the model does not render
+///                (exact: TOTAL, MEMBERS, STAKE; `*`: admin, hooks, config, claims, cw2 contract_info, anything else)
+///   C.<dump>     the entries of `members__changelog` / `total__changelog` (`<hex key>:<hex value>`), in full up
+///                to 16 entries, else `#<count>.<fnv1a-64 of the full text>`
+/// Not shown (the model state does not record whether these keys exist, see `Model/Cw4Raw.lean`): a `cw4-hooks`
+/// item holding `[]`, a STAKE entry holding `"0"`, a CLAIMS entry holding `[]`.
+pub fn render_raw_keys(data: &BTreeMap<Vec<u8>, Vec<u8>>, member_keys: &[Vec<u8>], primary_keys: &[Vec<u8>]) -> String {
+    use cosmwasm_std::storage_keys::to_length_prefixed;
+    // lower-case hex (as `common::hex`, without a `format!` per byte: this runs over the whole storage after every op)
+    fn hex(b: &[u8]) -> String {
+        const D: &[u8; 16] = b"0123456789abcdef";
+        let mut s = String::with_capacity(2 * b.len());
+        for x in b {
+            s.push(D[(x >> 4) as usize] as char);
+            s.push(D[(x & 15) as usize] as char);
+        }
+        s
+    }
+    let members = to_length_prefixed(cw4::MEMBERS_KEY.as_bytes());
+    let members_log = to_length_prefixed(cw4::MEMBERS_CHANGELOG.as_bytes());
+    let total_log = to_length_prefixed(cw4::TOTAL_KEY_CHANGELOG.as_bytes());
+    let stake = to_length_prefixed(b"stake");
+    let claims = to_length_prefixed(b"claims");
+    let mut prim: Vec<String> = vec![];
+    let mut logs: Vec<String> = vec![];
+    // a BTreeMap iterates in ascending byte order of the keys
+    for (k, v) in data {
+        if (k.as_slice() == b"cw4-hooks" && v.as_slice() == b"[]")
+            || (k.starts_with(&stake) && v.as_slice() == b"\"0\"")
+            || (k.starts_with(&claims) && v.as_slice() == b"[]")
+        {
+            continue;
+        }
+        if k.starts_with(&members_log) || k.starts_with(&total_log) {
+            logs.push(format!("{}:{}", hex(k), hex(v)));
+        } else if k.as_slice() == cw4::TOTAL_KEY.as_bytes() || k.starts_with(&members) || k.starts_with(&stake) {
+            prim.push(format!("{}:{}", hex(k), hex(v)));
+        } else {
+            prim.push(format!("{}:*", hex(k)));
+        }
+    }
+    let logs_text = logs.join(",");
+    let c = if logs.len() <= 16 { logs_text } else { format!("#{}.{:016x}", logs.len(), hash_str(&logs_text)) };
+    let hexes = |ks: &[Vec<u8>]| ks.iter().map(|k| hex(k)).collect::<Vec<_>>().join("+");
+    format!(
+        "T.{}/M.{}/P.{}/D.{}/C.{}",
+        hex(cw4::TOTAL_KEY.as_bytes()),
+        hexes(member_keys),
+        hexes(primary_keys),
+        prim.join(","),
+        c
+    )
 }
 
 impl GroupScen {
@@ -204,8 +267,13 @@ impl GroupScen {
                 .map(|r| r.members.iter().map(|m| format!("{}:{}", m.addr, m.weight)).collect())
         }, &pool_s)
         .unwrap_or_default();
+        // the byte layout itself: published keys, the keys cw-storage-plus uses, and a dump of the storage
+        let probes: Vec<&Addr> = self.pool.iter().take(2).collect();
+        let member_keys: Vec<Vec<u8>> = probes.iter().map(|a| cw4::member_key(a.as_str())).collect();
+        let primary_keys: Vec<Vec<u8>> = probes.iter().map(|a| MEMBERS.key(*a).to_vec()).collect();
+        let rawkeys = render_raw_keys(&self.deps.storage.data, &member_keys, &primary_keys);
         format!(
-            "obs pagediff={} admin={} hooks={} members={} total={} mh={} th={} rawtotal={} rawmem={} hs={} mlog={} tlog={}",
+            "obs pagediff={} admin={} hooks={} members={} total={} mh={} th={} rawtotal={} rawmem={} hs={} mlog={} tlog={} rawkeys={}",
             pagediff,
             opt_str(&self.admin()),
             self.hooks().join(","),
@@ -217,7 +285,8 @@ impl GroupScen {
             rawmem.join(","),
             hs.join(","),
             mlog.join(","),
-            tlog.join(",")
+            tlog.join(","),
+            rawkeys
         )
     }
 
